@@ -253,7 +253,7 @@ def _view(rng):
     if not pdir:
         return {"pdir": False, "stat": None, "comm": h(b"gone"), "cmdline": ["ENOENT"], "environ": ["ENOENT"],
                 "exe": [rng.choice(["ENOENT", "ESRCH"])], "cwd": [rng.choice(["ENOENT", "ESRCH"])], "paths": []}
-    stat = rng.choice(["S", "S", "S", "Z", None])
+    stat = rng.choice(["S", "S", "S", "Z", None, "DENIED"])
     comm = rng.choice(NAME_POOL)[:15]
     k = rng.random()
     if k < 0.3:
@@ -331,6 +331,27 @@ def gen_cases(rng, tier):
         cls = "name-%s%s" % ("15" if len(comm) == 15 else "short" if len(comm) < 15 else "long",
                              "-nonascii" if max(comm, default=0) >= 0x80 else "")
         cases.append({"kind": "name", "cls": cls, "r": r})
+    # zombies: every pool name cut at 15 and at 14 bytes (name() consults cmdline() only at >= 15 bytes)
+    if tier != "search":
+        for nm in NAME_POOL:
+            for cut in (15, 14):
+                for esrch in (False, True):
+                    cases.append({"kind": "zombie", "cls": "zombie-comm%d" % min(cut, len(nm)), "comm": h(nm[:cut]), "esrch": esrch})
+    for _ in range(n // 2):
+        cases.append({"kind": "zombie", "cls": "zombie-rand", "comm": h(bytes(rng.choice(UDEC_ALPHA[:-2] + [0x29, 0x28, 0x20]) for _ in range(rng.choice([15, 15, 14, 1])))),
+                      "esrch": rng.random() < 0.5})
+    # histories: cmdline(); caller edits the list; cmdline(), name(), exe() -- in and out of oneshot()
+    for _ in range(n):
+        nm = rng.choice(NAME_POOL)
+        a0 = rng.choice([b"/usr/bin/", b"/opt/x y/", b"", b"./"]) + nm
+        r = {"comm": h(nm[:15] if rng.random() < 0.85 else b"other"), "exe": _link(rng, 0.9) if rng.random() < 0.2 else None,
+             "cmd": {"form": "argv", "parts": [h(a0)] + [h(_arg(rng, 0.01)) for _ in range(rng.choice([1, 1, 2]))], "term": "nul"},
+             "how": rng.choice(["ENOENT", "ENOENT", "ESRCH", "EACCES"]), "paths": _paths_for(rng, [a0], rng.choice(["regx", "regx", "regx", "dir", None]))}
+        if rng.random() < 0.1:
+            r["cmd"] = {"form": "argv", "parts": [], "term": "nul"}
+        one = rng.random() < 0.7
+        cases.append({"kind": "hist", "cls": "hist-%s%s" % ("oneshot" if one else "plain", "" if r["cmd"]["parts"] else "-nocmdline"),
+                      "r": r, "oneshot": one, "mutate": True})
     for _ in range(2 * n):
         steps = []
         v = _view(rng)
@@ -378,8 +399,9 @@ def _g_lres(l):
 
 
 def _g_view(v):
-    stat = {None: "None", "S": "(Some false)", "Z": "(Some true)"}[v["stat"]]
-    return "(Build_pview %s %s %s %s %s %s %s %s)" % (G.bo(v["pdir"]), stat, G.by(unh(v["comm"])), _g_file(v["cmdline"]),
+    # pdir (is the /proc/<pid> directory still there) only shapes the fake tree: the code probes the stat file, not the directory
+    stat = {None: "None false", "DENIED": "None true", "S": "(Some false) false", "Z": "(Some true) false"}[v["stat"]]
+    return "(Build_pview %s %s %s %s %s %s %s)" % (stat, G.by(unh(v["comm"])), _g_file(v["cmdline"]),
                                                       _g_file(v["environ"]), _g_lres(v["exe"]), _g_lres(v["cwd"]),
                                                       _g_paths(v["paths"]))
 
@@ -407,6 +429,10 @@ def coq_term(case):
         return "run_view %s %s" % (MODEL_CFG, G.lst(["(%s, %s)" % (_g_view(s["view"]), OPS[s["op"]]) for s in case["steps"]]))
     if k == "udec":
         return "run_udec %s" % G.by(unh(case["data"]))
+    if k == "zombie":
+        return "run_zombie %s %s %s" % (MODEL_CFG, G.by(unh(case["comm"])), G.bo(case["esrch"]))
+    if k == "hist":
+        return "run_hist %s %s" % (MODEL_CFG, _g_kproc(case["r"]))
     raise ValueError(k)
 
 
@@ -434,6 +460,10 @@ def coq_struct(case, raw):
         return {"model": model, "spec": None, "aux": raw[1]}
     if k == "udec":
         return {"model": raw, "spec": None}
+    if k == "zombie":
+        return {"model": raw[0], "spec": raw[1]}
+    if k == "hist":
+        return {"printed": raw[0], "model": raw[1], "spec": raw[2], "aux": [raw[3]]}
     raise ValueError(k)
 
 
@@ -476,6 +506,10 @@ def _steps_of(case, coq):
         return [(_proc_view(case["r"], coq["printed"], None), "name", coq["aux"][0])]
     if k == "view":
         return [(s["view"], s["op"], a) for s, a in zip(case["steps"], coq["aux"])]
+    if k == "zombie":
+        w = ["ESRCH" if case["esrch"] else "ENOENT"]
+        v = dict(base, stat="Z", comm=case["comm"], exe=w, cwd=w)
+        return [(v, op, None) for op in ("name", "cmdline", "exe", "cwd")]
     raise ValueError(k)
 
 
@@ -495,10 +529,11 @@ class _Kernel:
         self.realbase = os.path.join(work, "base")
         self.objdir = os.path.join(work, "objs")
         self.links, self.open_err, self.answers, self.objs, self.missing = {}, {}, {}, {}, set()
-        self.real = (os.readlink, os.stat, os.access)
+        self.denied = set()       # paths whose stat()/lstat()/open() are refused (EACCES)
+        self.real = (os.readlink, os.stat, os.access, os.lstat)
 
     def install(self):
-        real_readlink, real_stat, real_access = self.real
+        real_readlink, real_stat, real_access, real_lstat = self.real
         import builtins
         K = self
 
@@ -511,8 +546,15 @@ class _Kernel:
                     {"ENOENT": 2, "ESRCH": 3, "EACCES": 13}[r[0]], "injected", path)
             return real_readlink(path, *a, **kw)
 
+        def lstat(path, *a, **kw):
+            if isinstance(path, str) and path in K.denied:
+                raise PermissionError(13, "injected", path)
+            return real_lstat(path, *a, **kw)
+
         def stat(path, *a, **kw):
             if isinstance(path, str):
+                if path in K.denied:
+                    raise PermissionError(13, "injected", path)
                 if path in K.answers:       # path_exists_strict() on a link target
                     ans = K.answers[path]
                     if ans == "denied":
@@ -540,11 +582,11 @@ class _Kernel:
                 raise {"ESRCH": ProcessLookupError, "EACCES": PermissionError}[e]({"ESRCH": 3, "EACCES": 13}[e], "injected", name)
             return builtins.open(name, *a, **kw)
 
-        os.readlink, os.stat, os.access = readlink, stat, access
+        os.readlink, os.stat, os.access, os.lstat = readlink, stat, access, lstat
         self.psutil._common.open = fake_open
 
     def uninstall(self):
-        os.readlink, os.stat, os.access = self.real
+        os.readlink, os.stat, os.access, os.lstat = self.real
         try:
             del self.psutil._common.open
         except AttributeError:
@@ -579,14 +621,20 @@ class _Kernel:
         from pv import fakeproc
         d = self.d
         self.links, self.open_err, self.answers, self.objs, self.missing = {}, {}, {}, {}, set()
+        self.denied = set()
         if not v["pdir"]:
             shutil.rmtree(d, ignore_errors=True)
         else:
             os.makedirs(d, exist_ok=True)
             sp = os.path.join(d, "stat")
             if v["stat"] is None:
-                if os.path.exists(sp):
+                if os.path.lexists(sp):
                     os.unlink(sp)
+            elif v["stat"] == "DENIED":
+                with open(sp, "wb") as f:
+                    f.write(fakeproc.stat_line(PID, unh(v["comm"]), state=b"S"))
+                self.denied.add(sp)
+                self.open_err[sp] = "EACCES"
             else:
                 with open(sp, "wb") as f:
                     f.write(fakeproc.stat_line(PID, unh(v["comm"]), state=v["stat"].encode()))
@@ -659,6 +707,30 @@ def _call(p, op):
     raise ValueError(op)
 
 
+def _run_hist(case, coq, p, K):
+    """cmdline(); edit the returned list in place; cmdline(), name(), exe() -- inside one oneshot() block when asked"""
+    import contextlib
+    v = _proc_view(case["r"], coq["printed"][0], coq["printed"][1])
+    res = []
+    K.install()
+    try:
+        K.apply(v, "exe", coq["aux"][0])
+        with (p.oneshot() if case["oneshot"] else contextlib.nullcontext()):
+            first = p.cmdline()
+            res.append(K.unbase(outcome(lambda: first, lambda l: [_b(x) for x in l] if isinstance(l, list) else _b(l))))
+            if case["mutate"] and isinstance(first, list):
+                if first:
+                    first[0] = "/EDITED/by-caller"
+                    first.reverse()
+                first.append("appended-by-caller")
+            res.append(K.unbase(_call(p, "cmdline")))
+            res.append(K.unbase(_call(p, "name")))
+            res.append(K.unbase(_call(p, "exe")))
+    finally:
+        K.uninstall()
+    return res
+
+
 def impl_run(case, coq, env):
     import psutil
     from pv import fakeproc
@@ -669,8 +741,10 @@ def impl_run(case, coq, env):
     fakeproc.attach(psutil, root)
     fp.add(PID)
     p = psutil.Process(PID)
-    steps = _steps_of(case, coq)
     K = _Kernel(psutil, root, env["work"])
+    if case["kind"] == "hist":
+        return _run_hist(case, coq, p, K)
+    steps = _steps_of(case, coq)
     res = []
     K.install()
     try:
